@@ -49,7 +49,7 @@ Has(f) == f \in wc.inp
 Load == wc.cmd = "load"
 MainCmds == {"phonopy", "load"}
 (* the other console scripts of phonopy/scripts that have a data path *)
-AuxCmds == {"qha", "convert", "bandplot", "propplot"}
+AuxCmds == {"qha", "convert", "bandplot", "propplot", "vaspborn"}
 
 (* --- decisions ----------------------------------------------------------- *)
 (* fc solver named by the settings, else the command's default *)
@@ -243,6 +243,7 @@ Finalize ==
 (* phonopy-qha: e-v.dat + one thermal_properties.yaml per volume -> PhonopyQHA   *)
 (* phonopy-calc-convert: read_crystal_structure -> write_crystal_structure       *)
 (* phonopy-bandplot --gnuplot, phonopy-propplot --gnuplot: the data files as text *)
+(* phonopy-vasp-born --outcar: get_born_OUTCAR as BORN-file text                  *)
 QhaFiles == {"helmholtz-volume.dat", "helmholtz-volume_fitted.dat", "volume-temperature.dat",
              "thermal_expansion.dat", "gibbs-temperature.dat", "bulk_modulus-temperature.dat",
              "Cp-temperature.dat", "Cp-temperature_polyfit.dat", "gruneisen-temperature.dat",
@@ -265,6 +266,8 @@ Aux ==
        [] wc.cmd = "bandplot" ->
           IF ~Has(IF S.band_hdf5 THEN "band.hdf5" ELSE "band.yaml") THEN Fail("no band file")
           ELSE AuxDone("gnuplot_band", {"stdout"})
+       [] wc.cmd = "vaspborn" ->   \* phonopy-vasp-born --outcar: BORN text from OUTCAR + POSCAR
+          IF ~(Has("OUTCAR") /\ Has("POSCAR")) THEN Fail("no VASP output") ELSE AuxDone("vasp_born", {"stdout"})
        [] OTHER ->
           IF ~Has("thermal_properties.yaml") THEN Fail("no thermal properties")
           ELSE AuxDone("gnuplot_prop", {"stdout"})
@@ -323,8 +326,9 @@ AuxPreconditions ==
   /\ ("convert" \in Names) => (Has("infile") /\ ~Has("outfile") /\ S.calcs_ok)
   /\ ("gnuplot_band" \in Names) => (Has("band.yaml") \/ Has("band.hdf5"))
   /\ ("gnuplot_prop" \in Names) => Has("thermal_properties.yaml")
+  /\ ("vasp_born" \in Names) => (Has("OUTCAR") /\ Has("POSCAR"))
   /\ (wc.cmd \in AuxCmds) => (Len(calls) <= 1 /\ fcsrc = "none" /\ cellsrc = "none")
-  /\ (wc.cmd \in MainCmds) => Names \cap {"qha", "qha_bulk_modulus", "convert", "gnuplot_band", "gnuplot_prop"} = {}
+  /\ (wc.cmd \in MainCmds) => Names \cap {"qha", "qha_bulk_modulus", "convert", "gnuplot_band", "gnuplot_prop", "vasp_born"} = {}
 
 NacFactorRule ==
   /\ (nacsrc = "none") <=> (nacfac = "none")
